@@ -42,6 +42,66 @@ func pairLayouts(w *World, r *Report, rule, ifaceName string) {
 		}
 		enc := extractLayout(w, encF, nil, true, 0)
 		dec := extractLayout(w, decF, nil, false, 0)
+		// the body of the decoder (codec call and reads) moved into a helper that is handed the payload
+		// (`text, err := decodeErrorText(response[1:])`): the helper's layout is the decoder's
+		if dec.Codec == "" && dec.Undecided == "" {
+			empty := true
+			for _, pth := range dec.Paths {
+				if len(pth.Ops) > 0 {
+					empty = false
+				}
+			}
+			if empty {
+				var body *ssa.Function
+				nb := 0
+				for _, c := range callsIn(decF) {
+					sc := c.Common().StaticCallee()
+					if sc == nil || !inModule(sc) || len(sc.Blocks) == 0 {
+						continue
+					}
+					takes := false
+					for _, a := range c.Common().Args {
+						if !isStringOrBytes(a.Type()) {
+							continue
+						}
+						base := a
+						for i := 0; i < 4; i++ {
+							if sl, ok := base.(*ssa.Slice); ok {
+								base = sl.X
+								continue
+							}
+							break
+						}
+						for _, root := range provenance(base, provOpts{}) {
+							for i := 0; i < 4; i++ {
+								if sl, ok := root.(*ssa.Slice); ok {
+									root = sl.X
+									continue
+								}
+								break
+							}
+							if pp, ok := root.(*ssa.Parameter); ok && pp.Parent() == decF {
+								takes = true
+							}
+						}
+					}
+					if !takes {
+						continue
+					}
+					if hl := extractLayout(w, sc, nil, false, 1); hl.Codec != "" {
+						body = sc
+						nb++
+					}
+				}
+				if nb == 1 {
+					hdr := dec.Header
+					dec = extractLayout(w, body, nil, false, 1)
+					if dec.Header == "" {
+						dec.Header = hdr
+					}
+				}
+			}
+		}
 		for k := range enc.Orders {
 			orders[k] = true
 		}
@@ -256,6 +316,45 @@ func c09Header(w *World, r *Report) {
 				base, _ = constIntVal(c.Call.Args[1])
 			}
 		})
+	}
+	if eu != nil && base < 0 {
+		// digits looked up in a table: `string([]byte{digits[id/K], digits[id%K]})` — the base is K (and the table
+		// must be strconv's digits for that base), the width the number of digits emitted, the modulus the largest
+		// remainder taken
+		ndig := int64(0)
+		var quo int64 = -1
+		mod = -1
+		allInstrs(eu, func(in ssa.Instruction) {
+			switch x := in.(type) {
+			case *ssa.BinOp:
+				if k, ok := constIntVal(x.Y); ok {
+					if x.Op == token.QUO {
+						quo = k
+					}
+					if x.Op == token.REM && k > mod {
+						mod = k
+					}
+				}
+			case *ssa.Lookup, *ssa.Index:
+				var coll ssa.Value
+				if l, ok := x.(*ssa.Lookup); ok {
+					coll = l.X
+				} else {
+					coll = x.(*ssa.Index).X
+				}
+				if sv, ok := constStrVal(coll); ok {
+					ndig++
+					if int64(len(sv)) >= 2 && sv == "0123456789abcdefghijklmnopqrstuvwxyz"[:len(sv)] && (quo < 0 || quo == int64(len(sv))) {
+						base = int64(len(sv))
+					}
+				}
+			}
+		})
+		if base > 0 && quo == base {
+			pad = ndig
+		} else {
+			base = -1
+		}
 	}
 	var pbase, pbits int64 = -1, -1
 	for _, g := range staticCone(decH, 2) {
@@ -750,6 +849,78 @@ func c10Records(w *World, r *Report) {
 				}
 			}
 		})
+		// the same facts where the loop lives in a shared helper and the record is built by a callback
+		// (`wrapBinaryRecords(msg, data, func(hdr, record) dns.RR { return &dns.NULL{…} })`): closures of the wrapper,
+		// its module helpers and their closures
+		{
+			var extra []*ssa.Function
+			seenX := map[*ssa.Function]bool{fn: true}
+			addX := func(g *ssa.Function) {
+				if g != nil && !seenX[g] && inModule(g) && len(g.Blocks) > 0 {
+					seenX[g] = true
+					extra = append(extra, g)
+				}
+			}
+			for _, a := range fn.AnonFuncs {
+				addX(a)
+			}
+			for _, c := range callsIn(fn) {
+				if sc := c.Common().StaticCallee(); sc != nil && sCallee(c) != phObj {
+					addX(sc)
+					for _, a := range sc.AnonFuncs {
+						addX(a)
+					}
+				}
+			}
+			for _, g := range extra {
+				allInstrs(g, func(in ssa.Instruction) {
+					switch x := in.(type) {
+					case *ssa.Alloc:
+						if name := rrTypeName(x.Type()); name != "" && implementsIface(x.Type(), rrIface) && name != "RR_Header" && wi.RRType == "" {
+							wi.RRType = name
+						}
+						if arr, ok := x.Type().(*types.Pointer).Elem().(*types.Array); ok && wi.TagLen == 0 {
+							if b, ok := arr.Elem().Underlying().(*types.Basic); ok && b.Kind() == types.Uint8 && arr.Len() > 0 && arr.Len() <= 4 {
+								wi.TagLen = arr.Len()
+							}
+						}
+					case *ssa.MakeSlice:
+						if v, ok := constIntVal(x.Len); ok && v > 0 && v <= 4 && wi.TagLen == 0 {
+							wi.TagLen = v
+						}
+					case *ssa.Call:
+						if sCallee(x) == phObj {
+							wi.ViaPrep = true
+						}
+					case *ssa.Slice:
+						if _, lowered := x.X.(*ssa.Alloc); lowered || x.High == nil || wi.Chunk != 0 {
+							break
+						}
+						if v, ok := constIntVal(x.High); ok && v > 0 {
+							wi.Chunk = v
+						} else if k, ok := cappedAt(x.High); ok {
+							wi.Chunk = k
+						}
+					case *ssa.Store:
+						if fa, ok := x.Addr.(*ssa.FieldAddr); ok {
+							if fv := fieldVarOf(fa); fv != nil && (fv.Name() == "Target" || fv.Name() == "Mx") && fv.Pkg() != nil && fv.Pkg().Path() == "github.com/miekg/dns" {
+								wi.Target = true
+							}
+						}
+					}
+				})
+			}
+			// a cut capped in the wrapper itself: `take := len(data); if take > K { take = K }; data[:take]`
+			if wi.Chunk == 0 {
+				allInstrs(fn, func(in ssa.Instruction) {
+					if sl, ok := in.(*ssa.Slice); ok && sl.High != nil && wi.Chunk == 0 {
+						if k, ok := cappedAt(sl.High); ok {
+							wi.Chunk = k
+						}
+					}
+				})
+			}
+		}
 		// a presized record buffer (larger than a tag): the tag is what binary.PutUintNN writes into it
 		if wi.TagLen == 0 {
 			allInstrs(fn, func(in ssa.Instruction) {
@@ -1389,4 +1560,39 @@ func c09UnescapeTight(w *World, r *Report) {
 	}
 	sort.Strings(bad)
 	r.Check(len(bad) == 0 && n > 0, "R09.5", key, w.Pos(fn.Pos()), fmt.Sprintf("%d consuming step(s), none guarded more strictly than its own width", n), strings.Join(bad, "; ")+mapStr(n == 0, "no consuming step found in the unescaper (idiom not recognised)"))
+}
+
+// cappedAt: v is `x` capped by a constant — phi(x, K) where the K edge comes from the branch `x > K` (or `K < x`,
+// `x >= K`): then v <= K.
+func cappedAt(v ssa.Value) (int64, bool) {
+	ph, ok := v.(*ssa.Phi)
+	if !ok || len(ph.Edges) != 2 {
+		return 0, false
+	}
+	for i := 0; i < 2; i++ {
+		k, isC := constIntVal(ph.Edges[i])
+		if !isC || k <= 0 {
+			continue
+		}
+		x := ph.Edges[1-i]
+		// the predecessor that supplies K is entered on the true edge of `x > K`
+		pred := ph.Block().Preds[i]
+		for _, pp := range pred.Preds {
+			ifi, ok := pp.Instrs[len(pp.Instrs)-1].(*ssa.If)
+			if !ok || pp.Succs[0] != pred {
+				continue
+			}
+			b, ok := ifi.Cond.(*ssa.BinOp)
+			if !ok {
+				continue
+			}
+			if kk, isK := constIntVal(b.Y); isK && kk == k && b.X == x && (b.Op == token.GTR || b.Op == token.GEQ) {
+				return k, true
+			}
+			if kk, isK := constIntVal(b.X); isK && kk == k && b.Y == x && (b.Op == token.LSS || b.Op == token.LEQ) {
+				return k, true
+			}
+		}
+	}
+	return 0, false
 }
